@@ -218,6 +218,11 @@ fn quorum_sanity_check(quorum: Option<usize>, peers: &[PeerInfo]) -> Result<(usi
     Ok((quorum, quorum < recommended_min_quorum))
 }
 
+#[cfg(feature = "verif")]
+pub fn verif_quorum_sanity_check(quorum: Option<usize>, peers: &[PeerInfo]) -> Result<(usize, bool)> {
+    quorum_sanity_check(quorum, peers)
+}
+
 async fn load_config_file(path: impl AsRef<Path>) -> Result<ConfigFile> {
     let yaml = fs::read_to_string(&path)
         .await
